@@ -71,7 +71,29 @@ def gen_config(rng):
         if kind == "IncomprRandMeth":
             gen["mean_velocity"] = rng.choice([1.0, 0.5, 2.0])
     vector = kind == "IncomprRandMeth"
+    flavor = "plain"
+    r = rng.random()
+    if kind == "RandMeth" and r < 0.22:
+        flavor = "temporal" if r < 0.14 else ("latlon" if r < 0.19 else "latlon_temporal")
+    if flavor == "temporal":
+        sdim = rng.choice([1, 1, 2])
+        dim = sdim + 1  # field dim includes time
+        model = cm.gen_model_spec(rng, dim, slow_share=0.12 if dim < 3 else 1.0)
+        model["temporal"] = True
+        model["nugget"] = 0.0 if rng.random() < 0.6 else model["nugget"]
+    elif flavor.startswith("latlon"):
+        temporal = flavor.endswith("temporal")
+        mdim = 3 + int(temporal)
+        model = cm.gen_model_spec(rng, mdim, name=rng.choice(["Gaussian", "Exponential",
+                                                             "Spherical"]), nugget=0.0)
+        model.update(latlon=True, temporal=temporal, len_scale=rng.choice([0.3, 0.7, 1.0]),
+                     geo_scale=rng.choice([1.0, 57.29577951308232]),
+                     angles=[0.0] * cm.n_angles(mdim))
+        model["len_scale"] *= model["geo_scale"]
+        model["anis"] = [1.0, 1.0] + ([rng.choice(cm.ANIS_GRID)] if temporal else [])
+        dim = 2 + int(temporal)
     cfg = {
+        "flavor": flavor,
         "n_ops": rng.randint(3, 14),
         "dim": dim,
         "model": model,
@@ -84,7 +106,13 @@ def gen_config(rng):
         "twin": True,
         "faults": rng.random() >= 0.4,
     }
-    if rng.random() < 0.25:
+    if flavor.startswith("latlon"):
+        lat = sorted({round(rng.uniform(-70, 70), 2) for _ in range(8)})[:3]
+        lon = sorted({round(rng.uniform(-170, 170), 2) for _ in range(8)})[:3]
+        cfg["axes"] = [lat, lon] + ([sorted({round(rng.uniform(-3, 3), 2)
+                                             for _ in range(4)})[:2]] if dim == 3 else [])
+        cfg["n_ops"] = min(cfg["n_ops"], 7)
+    elif rng.random() < 0.25:
         # projected coordinates (UTM like): neighbouring points are "equal" for np.allclose
         off = [rng.choice([4.5e5, 5.6e6, 1.2e5]) for _ in range(dim)]
         cfg["axes"] = [[round(v + o, 2) for v in a] for a, o in zip(cfg["axes"], off)]
@@ -138,6 +166,8 @@ def read_model(model):
         "angles": [float(a) for a in model.angles], "nugget": float(model.nugget),
         "opt": {o: float(getattr(model, o)) for o in model.opt_arg},
         "rescale": float(model.rescale),
+        "latlon": bool(model.latlon), "temporal": bool(model.temporal),
+        "geo_scale": float(model.geo_scale),
     }
 
 
@@ -157,6 +187,8 @@ class Machine:
         self.ref_cache = {}
         self.undo = []
         self.last = None  # description of the last requested positions
+        self.flavor = config.get("flavor", "plain")
+        self.mdim = self.spec["model"]["dim"]
         self.vector = self.spec["gen"]["kind"] == "IncomprRandMeth"
         # phases k*x lose ~1e-16*|x| absolute precision and BLAS may round the isometrisation
         # of n points differently for different n: scale the tolerance with the coordinates
@@ -184,8 +216,15 @@ class Machine:
                 name = m["cls"] if rng.random() < 0.5 else None
                 if self.spec["gen"]["kind"] == "Fourier" and name is None:
                     name = rng.choice(["Gaussian", "Exponential", "Matern"])
-                new = cm.gen_model_spec(rng, self.dim, name=name, nugget=m["nugget"],
+                new = cm.gen_model_spec(rng, self.mdim, name=name, nugget=m["nugget"],
                                         slow_share=0.05 if not cm.is_slow(m) else 1.0)
+                for k in ("latlon", "temporal", "geo_scale"):
+                    if k in m:
+                        new[k] = m[k]
+                if m.get("latlon"):
+                    new["angles"] = [0.0] * len(new["angles"])
+                    new["anis"] = [1.0, 1.0] + new["anis"][2:]
+                    new["len_scale"] = m["len_scale"]
             return {"op": "assign_model", "model": new, "equal": equal}
         if kind == "gen_set":
             return self._gen_gen_set(rng)
@@ -246,11 +285,17 @@ class Machine:
             p, old = self.undo[-1]
             return {"op": "set", "param": p, "value": old, "restore": True}
         params = ["var", "len_scale", "nugget"]
-        if self.dim > 1:
+        md = self.mdim
+        if self.flavor.startswith("latlon"):
+            if self.flavor.endswith("temporal"):
+                params += ["anis_time"]
+        elif md > 1:
             params += ["anis", "angles", "len_scale_list"]
         params += ["opt:" + o for o in sorted(m["opt"])]
         params.append("rescale")
         p = rng.choice(params)
+        if p == "anis_time":
+            return {"op": "set", "param": "anis", "value": rng.choice(cm.ANIS_GRID)}
         if p == "var":
             v = rng.choice([x for x in cm.VAR_GRID if abs(x - m["var"]) > 0.04 * x] or cm.VAR_GRID)
         elif p == "len_scale":
@@ -259,19 +304,19 @@ class Machine:
             # stay on the same side (zero / positive): the nugget-free clause is per history
             v = 0.0 if m["nugget"] == 0 else rng.choice([0.1, 0.5, 0.25])
         elif p == "anis":
-            v = [rng.choice(cm.ANIS_GRID) for _ in range(self.dim - 1)]
+            v = [rng.choice(cm.ANIS_GRID) for _ in range(md - 1)]
             if rng.random() < 0.3:
                 v = v[0]
         elif p == "angles":
-            v = [rng.choice(cm.ANGLE_GRID) for _ in range(cm.n_angles(self.dim))]
+            v = [rng.choice(cm.ANGLE_GRID) for _ in range(cm.n_angles(md))]
             if rng.random() < 0.3:
                 v = v[0]
         elif p == "len_scale_list":
-            v = [rng.choice(cm.LEN_GRID) for _ in range(rng.randint(2, self.dim))]
+            v = [rng.choice(cm.LEN_GRID) for _ in range(rng.randint(2, md))]
         elif p == "rescale":
             v = rng.choice([1.0, 0.5, 2.0])
         else:
-            v = rng.choice(cm.opt_grid(m["cls"], self.dim)[p[4:]])
+            v = rng.choice(cm.opt_grid(m["cls"], md)[p[4:]])
         return {"op": "set", "param": p, "value": v}
 
     def _gen_gen_set(self, rng):
@@ -330,12 +375,13 @@ class Machine:
         if f == "errstate":
             return {"fault": f, "value": rng.choice(["warn", "ignore"])}
         if f == "rejected_set":
-            p = rng.choice(["var", "len_scale", "nugget"] + (["anis"] if self.dim > 1 else []))
+            p = rng.choice(["var", "len_scale", "nugget"] + (
+                ["anis"] if self.mdim > 1 and self.flavor == "plain" else []))
             bad = {"var": rng.choice([-1.0, 0.0]), "len_scale": rng.choice([-2.0, 0.0]),
                    "nugget": -0.5, "anis": rng.choice([-1.0, 0.0])}[p]
             good = {"var": rng.choice(cm.VAR_GRID), "len_scale": rng.choice(cm.LEN_GRID),
                     "nugget": self.spec["model"]["nugget"],
-                    "anis": [rng.choice(cm.ANIS_GRID) for _ in range(self.dim - 1)]}[p]
+                    "anis": [rng.choice(cm.ANIS_GRID) for _ in range(self.mdim - 1)]}[p]
             return {"fault": f, "param": p, "bad": bad, "repair": good}
         return {"fault": "callback_raise", "n": rng.randint(1, 2),
                 "what": rng.choice(["mean", "trend"])}
@@ -419,8 +465,10 @@ class Machine:
 
     def _apply_assign(self, op):
         new = op["model"]
-        if new["dim"] != self.dim:
-            raise Inapplicable("dim")
+        if new["dim"] != self.mdim or bool(new.get("latlon")) != bool(
+                self.spec["model"].get("latlon")) or bool(new.get("temporal")) != bool(
+                self.spec["model"].get("temporal")):
+            raise Inapplicable("dim / flavour")
         if (new["nugget"] > 0) != (self.spec["model"]["nugget"] > 0):
             raise Inapplicable("nugget side switch")
         for s in self.sides():
